@@ -154,7 +154,7 @@ def run(ctx):
     contracts.arm_reads(ctx)
     contracts.arm_numeric(ctx)
     c08.arm_calibrate(ctx)
-    ndocs = ctx.size(160, 6000)
+    ndocs = ctx.size(400, 15000)
     npk = ctx.size(25, 60)
     for i in range(ndocs):
         if not ctx.mine(i):
